@@ -37,20 +37,28 @@ GStep0(st, e) ==
   IF st.bad # "" THEN st
   ELSE IF Dup(e.live) THEN [st EXCEPT !.bad = "C20.two-live-gateways-share-an-id"]
   ELSE IF ~e.agree THEN [st EXCEPT !.bad = "C20.lookup-by-id-index-membership-disagree-with-iteration"]
+  ELSE IF e.ev = "ret" /\ e.op = "exit" /\ e.res # "ok" THEN [st EXCEPT !.bad = "C20.exit-of-a-gateway-raised-" \o e.res]
+  ELSE IF e.ev = "call" /\ e.op = "makegateway" THEN [st EXCEPT !.explicits = IF e.flag THEN @ ELSE @ \cup {e.id}]
   ELSE IF e.ev = "ret" /\ e.op = "makegateway" THEN
      IF e.res = "ok" THEN
         IF e.id \in st.autos /\ e.flag THEN [st EXCEPT !.bad = "C20.automatic-id-allocated-twice"]
         ELSE [st EXCEPT !.autos = IF e.flag THEN @ \cup {e.id} ELSE @, !.made = @ + 1]
      ELSE IF e.flag /\ e.id \in st.autos THEN [st EXCEPT !.bad = "C20.automatic-id-allocated-twice"]
+     \* an automatic id that nobody asked for explicitly is live already: another automatic allocation got the same one
+     ELSE IF e.flag /\ e.res # "Injected" /\ e.id \notin st.explicits /\ (\E i \in 1..Len(e.live) : e.live[i] = e.id)
+          THEN [st EXCEPT !.bad = "C20.automatic-id-allocated-twice"]
+     \* ... or nobody ever asked for any explicit id, and an automatic allocation is refused all the same
+     ELSE IF e.flag /\ e.res \in {"AssertionError", "ValueError"} /\ st.explicits = {}
+          THEN [st EXCEPT !.bad = "C20.automatic-id-allocated-twice"]
      ELSE IF e.mine THEN
         IF e.res = "AssertionError" /\ e.thread \in st.overlapped THEN [st EXCEPT !.bad = "C05.concurrent-id-collision-leaves-a-process-behind"]
         ELSE [st EXCEPT !.bad = "C05.failed-makegateway-left-a-process-behind"]
-     ELSE IF e.res = "ValueError" THEN st
+     ELSE IF e.res \in {"ValueError", "Injected"} THEN st      \* refused id / the process could not be started (fault injected by the harness)
      ELSE [st EXCEPT !.bad = "C20.makegateway-raised-" \o e.res]
   ELSE st
 GStep(st, e) == IF e.ev = "call" THEN GStep0(Track(st, e), e) ELSE Track(GStep0(st, e), e)
 GRun(st, evs, i) == IF i > Len(evs) THEN st ELSE GRun(GStep(st, evs[i]), evs, i + 1)
-GVerdict(c) == LET f == GRun([bad |-> "", autos |-> {}, made |-> 0, failedStarted |-> 0, inflight |-> {}, overlapped |-> {}], c.events, 1) IN IF f.bad = "" THEN "ok" ELSE f.bad
+GVerdict(c) == LET f == GRun([bad |-> "", autos |-> {}, explicits |-> {}, made |-> 0, failedStarted |-> 0, inflight |-> {}, overlapped |-> {}], c.events, 1) IN IF f.bad = "" THEN "ok" ELSE f.bad
 
 Verdict(c) == IF c.k = "xspec" THEN XVerdict(c) ELSE GVerdict(c)
 ASSUME PrintT(<<"verdicts", [i \in 1..Len(Cases) |-> Verdict(Cases[i])]>>)
